@@ -7,7 +7,7 @@
 (* element path of the model resource M0, in several path forms, x every   *)
 (* operation x value classes x indexes in [-1, len+1].                     *)
 (***************************************************************************)
-EXTENDS FPPatch, Json, Params
+EXTENDS FPPatch, Json, C18_Params
 
 TreeRecs == ndJsonDeserialize(TreesFile)
 Schema   == JsonDeserialize(SchemaFile)
